@@ -209,7 +209,7 @@ def _replace(src: str, edits: list[tuple[int, int, str]]) -> str:
 
 
 TRACING = ("trace", "debug", "info", "warn", "error")
-DROP_ATTRS = re.compile(r"^(tracing\s*::\s*instrument|async_trait|allow|must_use|derive|inline|doc|cfg_attr)")
+DROP_ATTRS = re.compile(r"^(tracing\s*::\s*instrument|async_trait|allow|must_use|derive|inline|doc|cfg_attr|default|cfg\(feature)")
 
 
 def r1_attrs(src, log):
@@ -831,13 +831,26 @@ def process_template(tpl_path: str, repo: str, variant: dict | None = None) -> U
                         "pub fn %s_() -> (r: &'static [u8]) ensures r@ == seq![%s] { %s }"
                         % (mm.group(1), ", ".join("%du8" % x for x in val), mm.group(3)))
                 log["R14.def"] = 1
+            const_ens = None
+            if kv["kind"] == "const" and "ensures" in kv:
+                # const NAME: T = EXPR;  ->  exec const NAME: T ensures <template clause> { EXPR }   (initializer = real code)
+                mm = re.search(r"const\s+(\w+)\s*:\s*([^=]+?)\s*=\s*(.*?);\s*$", text, re.S)
+                if not mm:
+                    raise ExtractError("const %s: unsupported shape" % kv["name"])
+                const_ens = kv["ensures"]
+                text = "pub exec const %s: %s\n    ensures %s,\n{ %s }" % (mm.group(1), mm.group(2), "@@ENS@@", mm.group(3))
+                log["const->exec const"] = 1
             if "sub" in kv:
                 for pair in kv["sub"].split(";"):
                     if pair:
                         x, y = pair.split("=>")
                         text = text.replace(x, y); log.setdefault("SUB", []).append(pair)
             for off, l in enumerate(text.split("\n")):
-                res.lines.append(GenLine(l, ("src", sp.file, sp.line0 + off)))
+                if const_ens is not None and "@@ENS@@" in l:
+                    res.lines.append(GenLine(l.replace("@@ENS@@", const_ens),
+                                             ("tpl", i + 1, kv.get("label", "const.%s" % kv["name"]), "contract")))
+                else:
+                    res.lines.append(GenLine(l, ("src", sp.file, sp.line0 + min(off, sp.text.count("\n")))))
             res.functions.append({"id": kv.get("id", kv["name"]), "kind": "item", "file": sp.file,
                                   "lines": [sp.line0, sp.line0 + sp.text.count("\n")], "sha256": sp.sha256,
                                   "rules": log})
@@ -948,8 +961,10 @@ def _gen_function(kv, sections, repo, res: UnitResult, variant) -> list:
     body = src[body_a:body_b]
     line0 = _line_of(src, body_a)
     if "expr" in kv:
-        # wrap the expression as a block tail; scrutinee substitution (logged)
-        body = "{ " + body + " }"
+        # wrap the expression as a block; optional `post=` text (e.g. returning a local the arms assign) is appended
+        body = "{ " + body + (" " + kv["post"] if kv.get("post") else "") + " }"
+        if kv.get("post"):
+            log["post"] = kv["post"]
     for pair in [p for p in kv.get("sub", "").split(";;") if p]:
         x, y = pair.split("=>")
         if x not in body:
